@@ -158,7 +158,10 @@ def differential(chk, programs, configs_for, key_for=None, nontrivial=None, work
                 D.write_case(q, dq)
                 rcq, _, outq = run_config(q, dq, cfg)
                 return rcq == 0 and bool(D.diff_outputs(oq[1], outq))
-            small = shrink(p, fails, budget=shrink_budget) if shrink_budget else p
+            # shrinking re-runs souffle per step: only the first two failures are shrunk, compiled ones with a small budget
+            nshrunk = stats["shrunk"] = stats.get("shrunk", 0) + 1
+            budget = 0 if nshrunk > 2 else (6 if cfg.compiled else shrink_budget)
+            small = shrink(p, fails, budget=budget) if budget else p
             chk.finding(key, "output differs from the stratified least model under configuration '%s': %s" % (cfg.name, bad[:2]),
                         replay_obj(small, cfg, {"diff(rel, missing, unexpected, duplicated)": bad, "unshrunk_program": p.render_dl()}))
         elif len(chk.samples) < 4 and any(o[1].values()):
@@ -191,7 +194,7 @@ PIPE_TB = ["Coq 8.16.1 kernel; Print Assumptions of every theorem of the propert
 
 
 def standard_check(pid, level, tier, seed, configs_for, n_quick, n_thorough, features_fn, rule, proof=True,
-                   nontrivial=None, key_for=None, post=None, workers=None, size=1.0, extra_tb=(), mutate=None, proof_pid=None):
+                   nontrivial=None, key_for=None, post=None, workers=None, size=1.0, extra_tb=(), mutate=None, proof_pid=None, extra_programs=None):
     chk = C.Check(pid, level, tier, seed)
     C.build_souffle()
     if proof:
@@ -200,6 +203,8 @@ def standard_check(pid, level, tier, seed, configs_for, n_quick, n_thorough, fea
     progs = gen_programs(chk.rng.fork(pid), n, features_fn, size)
     if mutate:
         progs = [mutate(p, chk.rng.fork("mut%d" % i)) for i, p in enumerate(progs)]
+    if extra_programs:
+        progs = progs + list(extra_programs(chk.rng.fork("extra"), tier))
     stats, oracle = differential(chk, progs, configs_for, key_for=key_for, workers=workers,
                                  nontrivial=nontrivial or (lambda p, o: any(o[1].values())))
     chk.cov.update({"evaluations": stats["runs"], "distinct_nontrivial": stats["distinct_nontrivial"], "rule": rule,
